@@ -28,7 +28,7 @@ const c05Cfg = 100 // configured session expiry (seconds) in most runs
 
 func genC05(rng *rand.Rand, tier string) *sim.Plan {
 	p := NewPlan("C05", rng.Uint64(), rng)
-	cfgExp := pick(rng, []int{c05Cfg, 30, 7200})
+	cfgExp := pick(rng, []int{c05Cfg, 30, 7200, 0})
 	p.Broker.SessionExpiryS = sim.Int(cfgExp)
 	nc := 1 + rng.IntN(3)
 	for i := 0; i < nc; i++ {
